@@ -1,11 +1,11 @@
 package cache
 
 import (
+	"io"
 	"io/ioutil"
 	"os"
 	"path/filepath"
 
-	"github.com/mattetti/filebuffer"
 	"github.com/pojntfx/stfs/pkg/config"
 	"github.com/spf13/afero"
 )
@@ -23,22 +23,86 @@ func (f fileWithSize) Size() (int64, error) {
 	return info.Size(), nil
 }
 
-type filebufferWithSize struct {
-	*filebuffer.Buffer
+// memoryBuffer is an in-memory file: a byte slice with a cursor
+type memoryBuffer struct {
+	data []byte
+	pos  int64
 }
 
-func (f filebufferWithSize) Size() (int64, error) {
-	return int64(f.Buff.Len()), nil
+func (f *memoryBuffer) Read(p []byte) (int, error) {
+	if len(p) == 0 {
+		return 0, nil
+	}
+
+	if f.pos >= int64(len(f.data)) {
+		return 0, io.EOF
+	}
+
+	n := copy(p, f.data[f.pos:])
+	f.pos += int64(n)
+
+	return n, nil
 }
 
-func (f filebufferWithSize) Sync() error {
+func (f *memoryBuffer) Write(p []byte) (int, error) {
+	end := f.pos + int64(len(p))
+	if end > int64(len(f.data)) {
+		// Grow, filling a gap between the old end and the cursor with zeros
+		f.data = append(f.data, make([]byte, end-int64(len(f.data)))...)
+	}
+
+	copy(f.data[f.pos:], p)
+	f.pos = end
+
+	return len(p), nil
+}
+
+func (f *memoryBuffer) Seek(offset int64, whence int) (int64, error) {
+	dst := int64(0)
+	switch whence {
+	case io.SeekStart:
+		dst = offset
+	case io.SeekCurrent:
+		dst = f.pos + offset
+	case io.SeekEnd:
+		dst = int64(len(f.data)) + offset
+	default:
+		return 0, os.ErrInvalid
+	}
+
+	if dst < 0 {
+		return 0, os.ErrInvalid
+	}
+
+	f.pos = dst
+
+	return dst, nil
+}
+
+func (f *memoryBuffer) Truncate(size int64) error {
+	if size < 0 {
+		return os.ErrInvalid
+	}
+
+	if size <= int64(len(f.data)) {
+		f.data = f.data[:size]
+	} else {
+		f.data = append(f.data, make([]byte, size-int64(len(f.data)))...)
+	}
+
+	return nil
+}
+
+func (f *memoryBuffer) Size() (int64, error) {
+	return int64(len(f.data)), nil
+}
+
+func (f *memoryBuffer) Sync() error {
 	// No need to sync a in-memory buffer
 	return nil
 }
 
-func (f filebufferWithSize) Truncate(size int64) error {
-	f.Buff.Truncate(int(size))
-
+func (f *memoryBuffer) Close() error {
 	return nil
 }
 
@@ -48,10 +112,10 @@ func NewCacheWrite(
 ) (cache WriteCache, cleanup func() error, err error) {
 	switch cacheType {
 	case config.WriteCacheTypeMemory:
-		buff := &filebufferWithSize{filebuffer.New([]byte{})}
+		buff := &memoryBuffer{}
 
 		return buff, func() error {
-			buff = nil
+			buff.data = nil
 
 			return nil
 		}, nil
